@@ -355,3 +355,29 @@ PROPS["C04"] = dict(
     assumptions=["caller-side output buffers are sized as the documentation prescribes (len - overhead, saturating at 0)", "authentic inputs are produced by dryoc's own encrypt/sign/push functions (decided byte-exact by C01/C03/C06)"],
     trusted_base=TB_COMMON + ["std::panic::catch_unwind, a SIGSEGV/SIGABRT/SIGBUS/SIGILL/SIGFPE reporter and a counting GlobalAlloc in the harness"],
 )
+
+# ---------------------------------------------------------------------------------------------- C13
+
+
+def _c13_floors(m, tier):
+    out = need(m, "box_seed_len", range(129), "box seed lengths")
+    out += need(m, "function", ["crypto_kx_seed_keypair", "crypto_sign_seed_keypair", "ed25519_to_curve25519", "KeyPair::from_secret_key", "PwHash::derive_keypair"], "functions")
+    out += need(m, "secret_key_class", ["ff", "zeros", "unclamped_random", "random"], "secret key classes")
+    out += need(m, "derive_keypair_config_hash_length", ["32", "16", "33", "64"], "Config hash lengths for derive_keypair")
+    return out
+
+
+PROPS["C13"] = dict(
+    level="exploration",
+    technique="runtime differential monitoring: seeded/deterministic key generation compared with libsodium's functions where it accepts the input and with its construction rebuilt from libsodium primitives (SHA-512, BLAKE2b, Argon2 core, X25519 base mult) elsewhere; Python models offline",
+    level_text="Box seeds of every length 0..=128 (zeros, 0xff, random), kx and signing seeds, secret keys including unclamped/all-ones ones, password-derived key pairs at minimum cost with salts of 8..64 bytes and "
+               "Config hash lengths other than 32, and Ed25519-to-X25519 conversion of honest pairs are compared with libsodium; the converted pair must be self-consistent. Seeds are sampled, seed lengths enumerated.",
+    level_note="For inputs libsodium's API cannot take (seed length != 32, salt length != 16) the reference is the documented construction computed from libsodium primitives, plus the independent Python model.",
+    runs=lambda tier: [dict(build="st", monitor="c13")],
+    offline=offline.check_c13,
+    models=["x25519", "ed25519", "argon2"],
+    floors=_c13_floors,
+    rule="a case is (function, seed/secret key/password parameters); distinct by generated index resp. (seed length, repetition)",
+    assumptions=["dishonest Ed25519 public keys are out of scope of the property's conversion clause"],
+    trusted_base=TB_COMMON,
+)
